@@ -273,6 +273,7 @@ R23 = {
 R24 = {
  "C01": "the tars encoder only reads the retained package (no in-place patch of rawData)",
  "C05": "EdfLoadBalancer.ChooseHost returns nil only under size == 0, the only host unhealthy, or firstHealthyHost == nil",
+ "C06": "the weighted draw is only measured against clusterWeight values read from the merged table",
  "C09": "the HTTP/1 client raises OnGoAway before the response is handed over",
  "C11": "a relayed response is dequeued only after the transfer socket was dialed",
  "C13": "sdsProvider.update never writes the provider's long-lived secret info",
